@@ -36,12 +36,12 @@ Async(r) == NReq + r
 NoFid == 0
 
 VARIABLES nreq, rq, reqs, wpc, stack, act, fidref, spc, scur, outq, wire, impl,
-          fc, pool, nfc, cstate, cpc, fdir,
+          fc, pool, nfc, cstate, cpc, fdir, sstop,
           \* ghost (observation) variables
           cancelled, badcall, crashed, destroyed, creator, calls, extra, closedn
 
 vars == <<nreq, rq, reqs, wpc, stack, act, fidref, spc, scur, outq, wire, impl,
-          fc, pool, nfc, cstate, cpc, fdir,
+          fc, pool, nfc, cstate, cpc, fdir, sstop,
           cancelled, badcall, crashed, destroyed, creator, calls, extra, closedn>>
 
 NullRq == [kind |-> "none", tag |-> 0, fid |-> 0, newfid |-> 0, oldtag |-> 0,
@@ -65,6 +65,7 @@ Init ==
   /\ pool = <<>> /\ nfc = 0
   /\ cstate = "open" /\ cpc = "run"
   /\ fdir = [f \in Fids |-> f \in InitFids]
+  /\ sstop = FALSE
   /\ cancelled = {} /\ badcall = FALSE /\ crashed = FALSE
   /\ destroyed = [f \in Fids |-> 0]
   /\ creator = [f \in Fids |-> 0]
@@ -117,7 +118,7 @@ Recv(kind, tag, fid, newfid, oldtag) ==
                          ![IF older # 0 THEN older ELSE r].prev = IF older # 0 THEN r ELSE 0]
      /\ reqs' = [reqs EXCEPT ![tag] = r]
      /\ wpc' = [wpc EXCEPT ![r] = IF older = 0 THEN "start" ELSE "queued"]
-  /\ UNCHANGED <<stack, act, fidref, spc, scur, outq, wire, impl, cstate, cpc, fdir>>
+  /\ UNCHANGED <<stack, act, fidref, spc, scur, outq, wire, impl, cstate, cpc, fdir, sstop>>
   /\ UNCHANGED ghosts
 
 -----------------------------------------------------------------------------
@@ -155,14 +156,14 @@ WStart(r) ==
        ELSE /\ rq' = [rq EXCEPT ![r].work = TRUE]
             /\ wpc' = [wpc EXCEPT ![r] = "dispatch"]
             /\ UNCHANGED <<stack, act>>
-  /\ UNCHANGED <<nreq, reqs, fidref, spc, scur, outq, wire, impl, fc, pool, nfc, cstate, cpc, fdir>>
+  /\ UNCHANGED <<nreq, reqs, fidref, spc, scur, outq, wire, impl, fc, pool, nfc, cstate, cpc, fdir, sstop>>
   /\ UNCHANGED ghosts
 
 (* worker whose process() returned right after the flushed-path Respond (fixed code): no proc_end *)
 WRet(r) ==
   /\ wpc[r] = "ret" /\ AtBase(r)
   /\ wpc' = [wpc EXCEPT ![r] = "done"]
-  /\ UNCHANGED <<nreq, rq, reqs, stack, act, fidref, spc, scur, outq, wire, impl, fc, pool, nfc, cstate, cpc, fdir>>
+  /\ UNCHANGED <<nreq, rq, reqs, stack, act, fidref, spc, scur, outq, wire, impl, fc, pool, nfc, cstate, cpc, fdir, sstop>>
   /\ UNCHANGED ghosts
 
 Forward(r, fr, hf, hn, cr, fd) ==  \* the SrvReqOps method is entered; it parks in the scripted implementation
@@ -209,7 +210,7 @@ WDispatch(r) ==
                        ELSE rq
             /\ wpc' = [wpc EXCEPT ![r] = "flush2"]
             /\ UNCHANGED <<stack, act, fidref, impl, badcall, calls, creator, fdir>>
-  /\ UNCHANGED <<nreq, reqs, spc, scur, outq, wire, pool, nfc, cstate, cpc>>
+  /\ UNCHANGED <<nreq, reqs, spc, scur, outq, wire, pool, nfc, cstate, cpc, sstop>>
   /\ UNCHANGED <<cancelled, crashed, destroyed, extra, closedn>>
 
 WFlush2(r) ==                  \* flush_status -> flush_act (or Respond at once when no target)
@@ -223,14 +224,14 @@ WFlush2(r) ==                  \* flush_status -> flush_act (or Respond at once 
                    /\ UNCHANGED <<stack, act>>
               ELSE /\ wpc' = [wpc EXCEPT ![r] = "flush3o"]
                    /\ UNCHANGED <<rq, stack, act>>
-  /\ UNCHANGED <<nreq, reqs, fidref, spc, scur, outq, wire, impl, fc, pool, nfc, cstate, cpc, fdir>>
+  /\ UNCHANGED <<nreq, reqs, fidref, spc, scur, outq, wire, impl, fc, pool, nfc, cstate, cpc, fdir, sstop>>
   /\ UNCHANGED ghosts
 
 WFlush3Cancel(r) ==            \* flush_act: r.Respond() on the not-yet-started target
   /\ wpc[r] = "flush3c" /\ AtBase(r)
   /\ RespEnter(r, rq[r].tgt, rq)
   /\ wpc' = [wpc EXCEPT ![r] = "end"]
-  /\ UNCHANGED <<nreq, reqs, fidref, spc, scur, outq, wire, impl, fc, pool, nfc, cstate, cpc, fdir>>
+  /\ UNCHANGED <<nreq, reqs, fidref, spc, scur, outq, wire, impl, fc, pool, nfc, cstate, cpc, fdir, sstop>>
   /\ UNCHANGED ghosts
 
 (* flush_act with the target in the implementation: FlushOp.Flush(tgt) if provided.
@@ -242,7 +243,7 @@ WFlush3Op(r, cancel) ==
        THEN RespEnter(r, rq[r].tgt, [rq EXCEPT ![rq[r].tgt].flush = TRUE])
        ELSE UNCHANGED <<rq, stack, act>>
   /\ wpc' = [wpc EXCEPT ![r] = "end"]
-  /\ UNCHANGED <<nreq, reqs, fidref, spc, scur, outq, wire, impl, fc, pool, nfc, cstate, cpc, fdir>>
+  /\ UNCHANGED <<nreq, reqs, fidref, spc, scur, outq, wire, impl, fc, pool, nfc, cstate, cpc, fdir, sstop>>
   /\ UNCHANGED ghosts
 
 RKind(k, out) == IF out = "err" THEN "Rerror" ELSE "R" \o k
@@ -256,7 +257,7 @@ ImplRespond(r, out) ==
   /\ fc' = Packed(fc, r, IF out = "partial" THEN "RWalkPartial" ELSE RKind(rq[r].kind, out))
   /\ RespEnter(r, r, rq)
   /\ wpc' = [wpc EXCEPT ![r] = "end"]
-  /\ UNCHANGED <<nreq, reqs, fidref, spc, scur, outq, wire, pool, nfc, cstate, cpc, fdir>>
+  /\ UNCHANGED <<nreq, reqs, fidref, spc, scur, outq, wire, pool, nfc, cstate, cpc, fdir, sstop>>
   /\ UNCHANGED ghosts
 
 (* ... or returns without answering and answers later from a goroutine of its own *)
@@ -264,7 +265,7 @@ ImplReturn(r) ==
   /\ Late
   /\ wpc[r] = "impl" /\ AtBase(r) /\ impl[r] = "called"
   /\ wpc' = [wpc EXCEPT ![r] = "end"]
-  /\ UNCHANGED <<nreq, rq, reqs, stack, act, fidref, spc, scur, outq, wire, impl, fc, pool, nfc, cstate, cpc, fdir>>
+  /\ UNCHANGED <<nreq, rq, reqs, stack, act, fidref, spc, scur, outq, wire, impl, fc, pool, nfc, cstate, cpc, fdir, sstop>>
   /\ UNCHANGED ghosts
 
 ImplLate(r, out) ==
@@ -273,7 +274,7 @@ ImplLate(r, out) ==
   /\ impl' = [impl EXCEPT ![r] = "answered"]
   /\ fc' = Packed(fc, r, IF out = "partial" THEN "RWalkPartial" ELSE RKind(rq[r].kind, out))
   /\ RespEnter(Async(r), r, rq)
-  /\ UNCHANGED <<nreq, reqs, wpc, fidref, spc, scur, outq, wire, pool, nfc, cstate, cpc, fdir>>
+  /\ UNCHANGED <<nreq, reqs, wpc, fidref, spc, scur, outq, wire, pool, nfc, cstate, cpc, fdir, sstop>>
   /\ UNCHANGED ghosts
 
 (* an extra answer (RespondError) to an already answered request whose reply buffer the request
@@ -284,14 +285,14 @@ ImplExtra(r) ==      \* a goroutine of the implementation calls r.RespondError a
   /\ RcOwned(r) /\ ~(spc = "writing" /\ scur = r)
   /\ extra' = [extra EXCEPT ![r] = TRUE]
   /\ fc' = Packed(fc, r, "Rerror")
-  /\ UNCHANGED <<nreq, rq, reqs, wpc, stack, act, fidref, spc, scur, outq, wire, impl, pool, nfc, cstate, cpc, fdir>>
+  /\ UNCHANGED <<nreq, rq, reqs, wpc, stack, act, fidref, spc, scur, outq, wire, impl, pool, nfc, cstate, cpc, fdir, sstop>>
   /\ UNCHANGED <<cancelled, badcall, crashed, destroyed, creator, calls, closedn>>
 
 WEnd(r) ==                     \* proc_end: clear work, remember that no answer was produced
   /\ wpc[r] = "end" /\ AtBase(r)
   /\ rq' = [rq EXCEPT ![r].work = FALSE, ![r].saved = ~rq[r].resp]
   /\ wpc' = [wpc EXCEPT ![r] = "done"]
-  /\ UNCHANGED <<nreq, reqs, stack, act, fidref, spc, scur, outq, wire, impl, fc, pool, nfc, cstate, cpc, fdir>>
+  /\ UNCHANGED <<nreq, reqs, stack, act, fidref, spc, scur, outq, wire, impl, fc, pool, nfc, cstate, cpc, fdir, sstop>>
   /\ UNCHANGED ghosts
 
 -----------------------------------------------------------------------------
@@ -312,7 +313,7 @@ RUnlink(g, t) ==               \* the conn.Lock section of Respond, as coded
        ELSE /\ reqs' = [reqs EXCEPT ![rq[t].tag] = 0]
             /\ act' = [act EXCEPT ![t].st = IF FixOrder THEN "next" ELSE "post", ![t].cur = rq[t].flushreq, ![t].nextreq = 0]
             /\ UNCHANGED rq
-  /\ UNCHANGED <<nreq, wpc, stack, fidref, spc, scur, outq, wire, impl, fc, pool, nfc, cstate, cpc, fdir>>
+  /\ UNCHANGED <<nreq, wpc, stack, fidref, spc, scur, outq, wire, impl, fc, pool, nfc, cstate, cpc, fdir, sstop>>
   /\ UNCHANGED ghosts
 
 (* PostProcess: the *Post function chosen by the request type reads the CURRENT type of req.Rc *)
@@ -335,19 +336,19 @@ RPost(g, t) ==
      /\ destroyed' = [f \in Fids |-> destroyed[f] + (IF f \in gone THEN 1 ELSE 0)]
      /\ rq' = [rq EXCEPT ![t].hfid = NoFid, ![t].hnew = NoFid]
   /\ act' = [act EXCEPT ![t].st = "enq"]
-  /\ UNCHANGED <<nreq, reqs, wpc, stack, spc, scur, outq, wire, impl, fc, pool, nfc, cstate, cpc>>
+  /\ UNCHANGED <<nreq, reqs, wpc, stack, spc, scur, outq, wire, impl, fc, pool, nfc, cstate, cpc, sstop>>
   /\ UNCHANGED <<cancelled, badcall, creator, calls, extra, closedn>>
 
 (* conn.reqout <- req, skipped for requests whose status had the flush bit when Respond was entered *)
 REnq(g, t) ==
   /\ Running(g, t, "enq")
   /\ IF act[t].oldflush THEN UNCHANGED <<spc, scur, outq>>
-     ELSE IF spc = "gone"
-            THEN /\ FixClose /\ UNCHANGED <<spc, scur, outq>>   \* unfixed: blocks forever (sender has exited)
+     ELSE IF spc = "gone" \/ sstop
+            THEN /\ FixClose /\ UNCHANGED <<spc, scur, outq>>   \* unfixed: blocks forever (the sender has exited)
      ELSE IF spc = "idle" THEN /\ spc' = "got" /\ scur' = t /\ UNCHANGED outq
      ELSE /\ Len(outq) < Maxpend /\ outq' = Append(outq, t) /\ UNCHANGED <<spc, scur>>
   /\ act' = [act EXCEPT ![t].st = IF FixOrder THEN "unlink" ELSE "next"]
-  /\ UNCHANGED <<nreq, rq, reqs, wpc, stack, fidref, wire, impl, fc, pool, nfc, cstate, cpc, fdir>>
+  /\ UNCHANGED <<nreq, rq, reqs, wpc, stack, fidref, wire, impl, fc, pool, nfc, cstate, cpc, fdir, sstop>>
   /\ UNCHANGED ghosts
 
 (* Unwinding: after "go nextreq.process()" the loop over the collected flush chain runs; each
@@ -373,7 +374,7 @@ RNext(g, t) ==                 \* resp_next: go nextreq.process(); then the flus
          u == Unwind(g, rq, stack, [act EXCEPT ![t].st = "loop"]) IN
      /\ wpc' = IF nx # 0 THEN [wpc EXCEPT ![nx] = "start"] ELSE wpc
      /\ rq' = u[1] /\ stack' = u[2] /\ act' = u[3]
-  /\ UNCHANGED <<nreq, reqs, fidref, spc, scur, outq, wire, impl, fc, pool, nfc, cstate, cpc, fdir>>
+  /\ UNCHANGED <<nreq, reqs, fidref, spc, scur, outq, wire, impl, fc, pool, nfc, cstate, cpc, fdir, sstop>>
   /\ UNCHANGED ghosts
 
 -----------------------------------------------------------------------------
@@ -382,14 +383,15 @@ SWrite ==                      \* send_got: SetTag, then blocked in Write until 
   /\ spc = "got"
   /\ spc' = "writing"
   /\ crashed' = (crashed \/ fc[rq[scur].rc].kind = "none")   \* SetTag on a reply that was never packed
-  /\ UNCHANGED <<nreq, rq, reqs, wpc, stack, act, fidref, scur, outq, wire, impl, fc, pool, nfc, cstate, cpc, fdir>>
+  /\ UNCHANGED <<nreq, rq, reqs, wpc, stack, act, fidref, scur, outq, wire, impl, fc, pool, nfc, cstate, cpc, fdir, sstop>>
   /\ UNCHANGED <<cancelled, badcall, destroyed, creator, calls, extra, closedn>>
 
 Replies(r) == {i \in 1..Len(wire) : wire[i].req = r}
 
 SenderNext == \* after a write (or a failed write): recycle the Fcall, loop to select
   /\ pool' = IF Len(pool) < PoolCap THEN Append(pool, rq[scur].rc) ELSE pool
-  /\ IF outq # <<>> THEN /\ spc' = "got" /\ scur' = Head(outq) /\ outq' = Tail(outq)
+  /\ IF sstop THEN /\ spc' = "gone" /\ scur' = 0 /\ UNCHANGED outq    \* conn.done is closed: the sender returns
+     ELSE IF outq # <<>> THEN /\ spc' = "got" /\ scur' = Head(outq) /\ outq' = Tail(outq)
      ELSE /\ spc' = "idle" /\ scur' = 0 /\ UNCHANGED outq
 
 CRecv ==                       \* the client reads the frame (content as it is NOW); sender recycles, selects
@@ -399,7 +401,7 @@ CRecv ==                       \* the client reads the frame (content as it is N
   /\ cancelled' = IF rq[scur].kind = "Flush" /\ rq[scur].tgt # 0 /\ Replies(rq[scur].tgt) = {}
                     THEN cancelled \cup {rq[scur].tgt} ELSE cancelled
   /\ SenderNext
-  /\ UNCHANGED <<nreq, rq, reqs, wpc, stack, act, fidref, impl, fc, nfc, cstate, cpc, fdir>>
+  /\ UNCHANGED <<nreq, rq, reqs, wpc, stack, act, fidref, impl, fc, nfc, cstate, cpc, fdir, sstop>>
   /\ UNCHANGED <<badcall, crashed, destroyed, creator, calls, extra, closedn>>
 
 -----------------------------------------------------------------------------
@@ -408,36 +410,35 @@ ClientClose ==                 \* the client closes its end: recv sees EOF and p
   /\ CanClose /\ cstate = "open" /\ cpc = "run"     \* a Write in progress fails, the sender recycles and selects
   /\ cstate' = "eof" /\ cpc' = "enter"
   /\ IF spc = "writing" THEN SenderNext ELSE UNCHANGED <<spc, scur, outq, pool>>
-  /\ UNCHANGED <<nreq, rq, reqs, wpc, stack, act, fidref, wire, impl, fc, nfc, fdir>>
+  /\ UNCHANGED <<nreq, rq, reqs, wpc, stack, act, fidref, wire, impl, fc, nfc, fdir, sstop>>
   /\ UNCHANGED ghosts
 
 SWriteClosed ==                \* send_got after the client has gone: the write fails at once
   /\ spc = "got" /\ cstate # "open"
   /\ SenderNext
   /\ crashed' = (crashed \/ fc[rq[scur].rc].kind = "none")
-  /\ UNCHANGED <<nreq, rq, reqs, wpc, stack, act, fidref, wire, impl, fc, nfc, cstate, cpc, fdir>>
+  /\ UNCHANGED <<nreq, rq, reqs, wpc, stack, act, fidref, wire, impl, fc, nfc, cstate, cpc, fdir, sstop>>
   /\ UNCHANGED <<cancelled, badcall, destroyed, creator, calls, extra, closedn>>
 
-CloseEnter ==                  \* close_enter: stop the sender (needs it at its select), unregister, ConnClosed
-  /\ cpc = "enter" /\ spc = "idle"
-  /\ spc' = "gone" /\ cpc' = "destroy" /\ closedn' = closedn + 1
+CloseEnter ==                  \* close_enter: stop the sender, unregister, ConnClosed callback
+  /\ cpc = "enter"
+  /\ IF FixClose
+       THEN \* close(conn.done): does not wait; the sender returns when it next reaches its select
+            IF spc = "idle" THEN /\ spc' = "gone" /\ UNCHANGED sstop
+            ELSE /\ sstop' = TRUE /\ UNCHANGED spc
+       ELSE \* conn.done <- true: rendezvous, needs the sender at its select
+            /\ spc = "idle" /\ spc' = "gone" /\ UNCHANGED sstop
+  /\ cpc' = "destroy" /\ closedn' = closedn + 1
   /\ UNCHANGED <<nreq, rq, reqs, wpc, stack, act, fidref, scur, outq, wire, impl, fc, pool, nfc, cstate, fdir>>
   /\ UNCHANGED <<cancelled, badcall, crashed, destroyed, creator, calls, extra>>
 
-CloseDestroy ==                \* close_destroy: FidDestroy for every fid still in the table
+CloseDestroy ==                \* close_destroy: FidDestroy for every fid still in the table (table and counts untouched)
   /\ cpc = "destroy"
   /\ cpc' = "done"
-  /\ IF FixClose
-       THEN \* drop the table's reference: destroyed now if nobody holds it, else by the last holder
-            LET d == [f \in Fids |-> IF fidref[f] > 0 THEN fidref[f] - 1 ELSE 0] IN
-            /\ fidref' = d
-            /\ destroyed' = [f \in Fids |-> destroyed[f] + (IF fidref[f] > 0 /\ d[f] = 0 THEN 1 ELSE 0)]
-       ELSE \* as coded: FidDestroy for each fid in the pool, pool and counts untouched
-            /\ destroyed' = [f \in Fids |-> destroyed[f] + (IF fidref[f] > 0 THEN 1 ELSE 0)]
-            /\ UNCHANGED fidref
-  /\ UNCHANGED <<nreq, rq, reqs, wpc, stack, act, spc, scur, outq, wire, impl, fc, pool, nfc, cstate, fdir>>
+  /\ destroyed' = [f \in Fids |-> destroyed[f] + (IF fidref[f] > 0 THEN 1 ELSE 0)]
+  /\ UNCHANGED fidref
+  /\ UNCHANGED <<nreq, rq, reqs, wpc, stack, act, spc, scur, outq, wire, impl, fc, pool, nfc, cstate, fdir, sstop>>
   /\ UNCHANGED <<cancelled, badcall, crashed, creator, calls, extra, closedn>>
-
 
 -----------------------------------------------------------------------------
 (* Abstraction shared with the harness (harness/srvh Ctl.Abstract): what the gate controller can
